@@ -1,7 +1,7 @@
 /- line-protocol engine `core`: the core-language evaluator (C01, C02, C03, C06, C07, C08).
 
 Request:  core run <depth|-> <calls|-> <rec|-> <tco 0|1> <fuel> <program as one S-expression …>
-Response: <outcome> ; out=<line>|<line>… ; <name>=<dump> ; …
+Response: <outcome> ; out=|<line>|<line>… ; <name>=<dump> ; …
   outcome = ok | viol:<kind> | stuck:<why> | oof
 -/
 import XrayModel.Core
@@ -110,7 +110,7 @@ def coreRun (args : List String) : String :=
       | some decls =>
         let cfg : Cfg := { depthLimit := d', callLimit := c', recLimit := r', tco := tco != "0" }
         let (res, st) := runProgram fuel' cfg decls
-        let outs := "out=" ++ String.intercalate "|" st.out
+        let outs := "out=" ++ String.join (st.out.map (fun l => "|" ++ l))
         match res with
         | .ok fr =>
             let binds := fr.env.reverse.map (fun (n, v) => n ++ "=" ++ dumpVal v)
